@@ -485,11 +485,11 @@ fn main() {
     ck.run(
         Section::enumerate(
             "large-values",
-            "values of 16 MiB - 1, 16 MiB, 16 MiB + 4321 and 17.5 MiB on [Memory(2), Disk] and [Memory(1), Memory(8), Disk], MD5 hooks: put_to_layer(k0, disk), get, get_from_layer(disk), get_with_validation(key of latest), promote(disk -> 0), get, put_with_validation(k1), remove k1's first-layer copy by two more puts, get_with_validation(k1)",
+            "values of 16 MiB - 1, 16 MiB, 16 MiB + 4321, 17.5 MiB and 64 MiB - 1, 64 MiB, 64 MiB + 1 on [Memory(2), Disk] and [Memory(1), Memory(8), Disk], MD5 hooks: put_to_layer(k0, disk), get, get_from_layer(disk), get_with_validation(key of latest), promote(disk -> 0), get, put_with_validation(k1), remove k1's first-layer copy by two more puts, get_with_validation(k1)",
             || {
                 const MIB: usize = 1024 * 1024;
                 let mut v = Vec::new();
-                for len in [16 * MIB - 1, 16 * MIB, 16 * MIB + 4321, 17 * MIB + MIB / 2] {
+                for len in [16 * MIB - 1, 16 * MIB, 16 * MIB + 4321, 17 * MIB + MIB / 2, 64 * MIB - 1, 64 * MIB, 64 * MIB + 1] {
                     for layout in [Layout::MemDisk { l0_max: 2 }, Layout::MemMemDisk { l0_max: 1 }] {
                         let disk = layout.disk_layer() as u8;
                         let ops = vec![
